@@ -1,0 +1,17 @@
+//go:build verif
+
+// Contracts for the tvc verifier (/verif). Comment-only: with the `verif` tag off this file does not exist,
+// with it on it adds no code. Syntax: /verif/DESIGN.md appendix A.
+
+package link
+
+//@ for C14
+
+//@ func VethNameForPod
+//@   panics
+//@   deterministic
+//@   modifies nothing
+//@   # hash.Hash.Write never fails, so a name is always produced; it is the prefix plus 11 hex digits
+//@   ensures result1 == nil
+//@   ensures len(result0) == len(prefix) + 11
+//@   ensures len(prefix) <= 4 ==> len(result0) <= 15
